@@ -296,10 +296,11 @@ func drawCmdCase(t *simrt.Tape, name string, thorough bool) cmdCase {
 
 type parCfg struct {
 	MaxCPU, BatchSize, Pool, Yield, Chunk, Policy int
+	ErrNull                                       bool // stderr is a character device: the progress-bar stage is in the pipeline
 }
 
 func (p parCfg) String() string {
-	return fmt.Sprintf("max-cpu=%d batch-size=%d pool=%d yield=%d chunk=%d policy=%d", p.MaxCPU, p.BatchSize, p.Pool, p.Yield, p.Chunk, p.Policy)
+	return fmt.Sprintf("max-cpu=%d batch-size=%d pool=%d yield=%d chunk=%d policy=%d stderr-chardev=%v", p.MaxCPU, p.BatchSize, p.Pool, p.Yield, p.Chunk, p.Policy, p.ErrNull)
 }
 
 var refCfg = parCfg{MaxCPU: 2, BatchSize: 2000, Pool: 3, Yield: 0, Chunk: 0, Policy: 1}
@@ -319,6 +320,7 @@ func drawParCfg(t *simrt.Tape, n int) parCfg {
 	p.Yield = t.Choose(4)
 	p.Chunk = []int{0, 64, 200, 1000, 37}[t.Choose(5)]
 	p.Policy = 0
+	p.ErrNull = t.Choose(3) == 2
 	return p
 }
 
@@ -345,7 +347,7 @@ func (c cmdCase) spec(dir string, p parCfg) CmdSpec {
 	if p.Chunk > 0 {
 		knobs["chunk"] = p.Chunk
 	}
-	return CmdSpec{Name: c.Name, Args: args, Dir: dir, Knobs: knobs, PoolPolicy: p.Pool, YieldDensity: p.Yield, Policy: p.Policy}
+	return CmdSpec{Name: c.Name, Args: args, Dir: dir, Knobs: knobs, PoolPolicy: p.Pool, YieldDensity: p.Yield, StderrNull: p.ErrNull, Policy: p.Policy}
 }
 
 func (c cmdCase) inputSet() map[string]bool {
